@@ -267,14 +267,11 @@ Proof.
 Qed.
 
 Lemma parity_decrby args : forallb utf8_valid args = true ->
-  match args with [_; a] => parse_i64 a <> Some i64_min | _ => True end ->
   via (parse_k_int parse_i64 XDecrBy (F :: bulks args)) = h_decrby d (F :: bulks args).
 Proof.
-  destruct args as [|k [|a [|x r]]]; intros Hv Hk; unfold h_decrby, nparts, parse_k_int, ExecFacts.via, nth_arg;
+  destruct args as [|k [|a [|x r]]]; intros Hv; unfold h_decrby, nparts, parse_k_int, ExecFacts.via, nth_arg;
     rewrite ?bulks_cons, ?bulks_nil; cbn [nth_error x_bytes arg_bytes]; lens; try reflexivity.
-  - valids Hv. rewrite x_int_valid by assumption. destruct (parse_i64 a) as [n|]; [|reflexivity].
-    cbn [execute]. destruct (n =? i64_min) eqn:E; [|reflexivity].
-    apply Z.eqb_eq in E. subst n. now elim Hk.
+  - valids Hv. rewrite x_int_valid by assumption. destruct (parse_i64 a) as [n|]; reflexivity.
   - len_bool. destruct (1 + (1 + (1 + (1 + len r))) =? 3) eqn:E; [lia|]. reflexivity.
 Qed.
 
@@ -388,66 +385,15 @@ Proof.
   - len_bool. destruct (1 + (1 + (1 + (1 + (1 + len r)))) =? 4) eqn:E; [lia|]. reflexivity.
 Qed.
 
-(** EXPIRE: the handler parses i64 (and deletes the key for a count <= 0), the executor u64 *)
-Lemma digits_val_nonneg l : forall acc v, 0 <= acc -> digits_val l acc = Some v -> 0 <= v.
-Proof.
-  induction l as [|c r IH]; intros acc v Ha; cbn [digits_val]; intros E; [inversion E; subst; assumption|].
-  destruct (is_digit c) eqn:Ed; [|discriminate]. unfold is_digit in Ed. apply andb_prop in Ed. destruct Ed as [H1 _].
-  apply Z.leb_le in H1. apply (IH (acc * 10 + (c - 48)) v); [lia|exact E].
-Qed.
-Lemma parse_digits_nonneg l v : parse_digits l = Some v -> 0 <= v.
-Proof. unfold parse_digits. destruct l; [discriminate|]. apply digits_val_nonneg. lia. Qed.
-Lemma parse_digits_minus r : parse_digits (45 :: r) = None.
-Proof. reflexivity. Qed.
-Lemma parse_i64_u64_pos a s : parse_i64 a = Some s -> 0 < s -> parse_u64 a = Some s.
-Proof.
-  unfold parse_i64, parse_u64, parse_signed, parse_unsigned. intros E Hs.
-  destruct a as [|c r]; [discriminate|].
-  destruct (c =? 45) eqn:E45.
-  - apply Z.eqb_eq in E45. subst c. destruct (parse_digits r) as [v|] eqn:Ev; cbn [option_map] in E; [|discriminate].
-    apply parse_digits_nonneg in Ev. destruct ((i64_min <=? - v) && (- v <=? i64_max)); [|discriminate]. inversion E. lia.
-  - assert (Hr : (match c :: r with 43 :: d0 => parse_digits d0 | 45 :: d0 => option_map Z.opp (parse_digits d0) | _ => parse_digits (c :: r) end)
-                 = (match c :: r with 43 :: d0 => parse_digits d0 | _ => parse_digits (c :: r) end)).
-    { destruct c as [|p|p]; try reflexivity. do 6 (destruct p; try reflexivity). cbn in E45. discriminate. }
-    rewrite Hr in E. destruct (match c :: r with 43 :: d0 => parse_digits d0 | _ => parse_digits (c :: r) end) as [v|]; [|discriminate].
-    destruct ((i64_min <=? v) && (v <=? i64_max)) eqn:Er; [|discriminate]. inversion E; subst v.
-    unfold i64_max, u64_max in *. replace (s <=? 18446744073709551615) with true by lia. reflexivity.
-Qed.
-Lemma parse_i64_none_u64 a : parse_i64 a = None -> parse_u64 a = None \/ exists n, parse_u64 a = Some n /\ i64_max < n.
-Proof.
-  unfold parse_i64, parse_u64, parse_signed, parse_unsigned. intros E.
-  destruct a as [|c r]; [now left|].
-  destruct (c =? 45) eqn:E45.
-  - apply Z.eqb_eq in E45. subst c. left. reflexivity.
-  - assert (Hr : (match c :: r with 43 :: d0 => parse_digits d0 | 45 :: d0 => option_map Z.opp (parse_digits d0) | _ => parse_digits (c :: r) end)
-                 = (match c :: r with 43 :: d0 => parse_digits d0 | _ => parse_digits (c :: r) end)).
-    { destruct c as [|p|p]; try reflexivity. do 6 (destruct p; try reflexivity). cbn in E45. discriminate. }
-    rewrite Hr in E. destruct (match c :: r with 43 :: d0 => parse_digits d0 | _ => parse_digits (c :: r) end) as [v|] eqn:Ev; [|now left].
-    assert (0 <= v).
-    { destruct c as [|p|p]; try (apply parse_digits_nonneg in Ev; exact Ev).
-      do 6 (destruct p; try (apply parse_digits_nonneg in Ev; exact Ev)). }
-    destruct ((i64_min <=? v) && (v <=? i64_max)) eqn:Er; [discriminate|].
-    destruct (v <=? u64_max) eqn:Eu; [|now left]. right. exists v. split; [reflexivity|].
-    unfold i64_min, i64_max in *. lia.
-Qed.
-Lemma ttl_ok_big n : i64_max < n -> ttl_ok (n * 1000) = false.
-Proof. unfold ttl_ok, ttl_limit_ms, i64_max. intros. apply Z.leb_gt. lia. Qed.
-
 Lemma parity_expire args : forallb utf8_valid args = true ->
-  match args with [_; a] => match parse_i64 a with Some s => 0 < s | None => True end | _ => True end ->
   via (match F :: bulks args with
-       | [_; k; a] => match x_bytes k, x_int parse_u64 a with Some kb, Some n => Some (XExpire kb n) | _, _ => None end
+       | [_; k; a] => match x_bytes k, x_int parse_i64 a with Some kb, Some n => Some (XExpire kb n) | _, _ => None end
        | _ => None
        end) = h_expire now d (F :: bulks args).
 Proof.
-  destruct args as [|k [|a [|x r]]]; intros Hv Hk; unfold h_expire, nparts, ExecFacts.via, nth_arg;
+  destruct args as [|k [|a [|x r]]]; intros Hv; unfold h_expire, nparts, ExecFacts.via, nth_arg;
     rewrite ?bulks_cons, ?bulks_nil; cbn [nth_error x_bytes arg_bytes]; lens; try reflexivity.
-  - valids Hv. rewrite x_int_valid by assumption.
-    destruct (parse_i64 a) as [s|] eqn:Es.
-    + rewrite (parse_i64_u64_pos _ _ Es Hk). replace (s <=? 0) with false by lia. cbn [execute].
-      destruct (ttl_ok (s * 1000)); reflexivity.
-    + destruct (parse_i64_none_u64 _ Es) as [E|[n [E Hn]]]; rewrite E; [reflexivity|].
-      cbn [execute]. now rewrite ttl_ok_big.
+  - valids Hv. rewrite x_int_valid by assumption. destruct (parse_i64 a) as [s0|]; reflexivity.
   - len_bool. destruct (1 + (1 + (1 + (1 + len r))) =? 3) eqn:E; [lia|]. reflexivity.
 Qed.
 Lemma parity_pexpire args : forallb utf8_valid args = true ->
@@ -461,14 +407,11 @@ Proof.
   - valids Hv. rewrite x_int_valid by assumption. destruct (parse_u64 a) as [n|]; reflexivity.
   - len_bool. destruct (1 + (1 + (1 + (1 + len r))) =? 3) eqn:E; [lia|]. reflexivity.
 Qed.
-Lemma parity_ttl args :
-  match args with [k] => eng_ttl now d k = None | _ => True end ->
-  via (parse_k XTtl (F :: bulks args)) = h_ttl now d (F :: bulks args).
+Lemma parity_ttl args : via (parse_k XTtl (F :: bulks args)) = h_ttl now d (F :: bulks args).
 Proof.
-  destruct args as [|k [|a r]]; intros Hk; unfold h_ttl, nparts, parse_k, ExecFacts.via, nth_arg;
+  destruct args as [|k [|a r]]; unfold h_ttl, nparts, parse_k, ExecFacts.via, nth_arg;
     rewrite ?bulks_cons, ?bulks_nil; cbn [nth_error x_bytes arg_bytes option_map]; lens; try reflexivity.
-  - cbn [execute]. now rewrite Hk.
-  - len_bool. destruct (1 + (1 + (1 + len r)) =? 2) eqn:E; [lia|]. reflexivity.
+  len_bool. destruct (1 + (1 + (1 + len r)) =? 2) eqn:E; [lia|]. reflexivity.
 Qed.
 Lemma parity_pttl args : via (parse_k XPttl (F :: bulks args)) = h_pttl now d (F :: bulks args).
 Proof.
@@ -488,17 +431,11 @@ Proof.
     rewrite ?bulks_cons, ?bulks_nil; cbn [nth_error x_bytes arg_bytes]; lens; try reflexivity.
   len_bool. destruct (1 + (1 + (1 + (1 + len r))) =? 3) eqn:E; [lia|]. reflexivity.
 Qed.
-(** RENAMENX: equal when the source key is absent (both refuse) *)
-Lemma parity_renamenx args :
-  match args with [o; _] => amem o (d_data d) = false | _ => True end ->
-  via (parse_kv XRenameNx (F :: bulks args)) = h_renamenx now d (F :: bulks args).
+Lemma parity_renamenx args : via (parse_kv XRenameNx (F :: bulks args)) = h_renamenx now d (F :: bulks args).
 Proof.
-  destruct args as [|k [|a [|b r]]]; intros Hk; unfold h_renamenx, nparts, parse_kv, ExecFacts.via, nth_arg;
+  destruct args as [|k [|a [|b r]]]; unfold h_renamenx, nparts, parse_kv, ExecFacts.via, nth_arg;
     rewrite ?bulks_cons, ?bulks_nil; cbn [nth_error x_bytes arg_bytes]; lens; try reflexivity.
-  - cbn [execute]. unfold h_rename, frames_of, nparts, nth_arg, eng_rename, eng_exists, get_entry, amem in *.
-    cbn [map nth_error arg_bytes]. lens. cbn [Z.eqb Pos.eqb negb Z.add Pos.add Pos.succ].
-    destruct (alookup k (d_data d)); [discriminate|]. reflexivity.
-  - len_bool. destruct (1 + (1 + (1 + (1 + len r))) =? 3) eqn:E; [lia|]. reflexivity.
+  len_bool. destruct (1 + (1 + (1 + (1 + len r))) =? 3) eqn:E; [lia|]. reflexivity.
 Qed.
 Lemma parity_keys args :
   via (match F :: bulks args with [_; p] => option_map XKeys (x_bytes p) | _ => None end) = h_keys d (F :: bulks args).
@@ -629,15 +566,7 @@ Definition arg1_empty (args : list bytes) : bool := match args with k :: _ => be
 Definition known (now : Z) (d : db) (name : bytes) (args : list bytes) : bool :=
   if beq name (bs "SET") then arg1_empty args || set_known (skipn 2 args)       (* empty-key; lua-set-options *)
   else if beq name (bs "GET") || beq name (bs "INCR") || beq name (bs "INCRBY") then arg1_empty args
-  else if beq name (bs "DECRBY") then                                            (* lua-decrby-min *)
-    match args with [_; a] => match parse_i64 a with Some n => n =? i64_min | None => false end | _ => false end
-  else if beq name (bs "EXPIRE") then                                            (* lua-expire-nonpositive *)
-    match args with [_; a] => match parse_i64 a with Some s => s <=? 0 | None => false end | _ => false end
-  else if beq name (bs "TTL") then                                               (* lua-ttl-reply *)
-    match args with [k] => match eng_ttl now d k with Some _ => true | None => false end | _ => false end
   else if beq name (bs "TYPE") then match args with [_] => true | _ => false end (* status reply vs bulk string *)
-  else if beq name (bs "RENAMENX") then                                          (* lua-renamenx-is-rename *)
-    match args with [o; _] => amem o (d_data d) | _ => false end
   else if beq name (bs "DBSIZE") || beq name (bs "FLUSHDB") then                 (* lua-arity-unchecked *)
     match args with [] => false | _ => true end
   else false.
@@ -676,9 +605,7 @@ Proof.
   { apply (parity_incrby now d (FBulk nm)); [exact Hv|]. destruct args; [exact I|exact Hk]. }
   (* DECR *)
   { apply (parity_incr now d (FBulk nm) false (-1) XDecr); [reflexivity|]. destruct args as [|k [|? ?]]; try exact I. reflexivity. }
-  (* DECRBY *)
-  { apply (parity_decrby now d (FBulk nm)); [exact Hv|]. destruct args as [|k [|a [|? ?]]]; try exact I.
-    intros E. rewrite E in Hk. vm_compute in Hk. discriminate. }
+  (* DECRBY *) { apply (parity_decrby now d (FBulk nm)); exact Hv. }
   (* SETNX *) { apply (parity_setnx now d (FBulk nm)). }
   (* SETEX *)
   { apply (parity_setex now d (FBulk nm) 1000 XSetEx); [reflexivity|exact Hv]. }
@@ -691,13 +618,9 @@ Proof.
   (* SETRANGE *) { apply (parity_setrange now d (FBulk nm)); exact Hv. }
   (* DEL *) { apply (parity_del now d (FBulk nm)). }
   (* EXISTS *) { apply (parity_exists now d (FBulk nm)). }
-  (* EXPIRE *)
-  { apply (parity_expire now d (FBulk nm)); [exact Hv|]. destruct args as [|k [|a [|? ?]]]; try exact I.
-    destruct (parse_i64 a) as [s0|]; [|exact I]. apply Z.leb_gt in Hk. exact Hk. }
+  (* EXPIRE *) { apply (parity_expire now d (FBulk nm)); exact Hv. }
   (* PEXPIRE *) { apply (parity_pexpire now d (FBulk nm)); exact Hv. }
-  (* TTL *)
-  { apply (parity_ttl now d (FBulk nm)). destruct args as [|k [|? ?]]; try exact I.
-    destruct (eng_ttl now d k); [discriminate|reflexivity]. }
+  (* TTL *) { apply (parity_ttl now d (FBulk nm)). }
   (* PTTL *) { apply (parity_pttl now d (FBulk nm)). }
   (* PERSIST *) { apply (parity_persist now d (FBulk nm)). }
   (* TYPE: only the wrong arities are outside the class *)
@@ -705,8 +628,7 @@ Proof.
     unfold h_type, nparts, parse_k. rewrite !bulks_cons. lens. len_bool.
     destruct (1 + (1 + (1 + len r)) =? 2) eqn:E; [lia|]. reflexivity. }
   (* RENAME *) { apply (parity_rename now d (FBulk nm)). }
-  (* RENAMENX *)
-  { apply (parity_renamenx now d (FBulk nm)). destruct args as [|o [|n [|? ?]]]; try exact I. exact Hk. }
+  (* RENAMENX *) { apply (parity_renamenx now d (FBulk nm)). }
   (* KEYS *) { apply (parity_keys now d (FBulk nm)). }
   (* DBSIZE *) { destruct args; [|discriminate]. reflexivity. }
   (* FLUSHDB *) { destruct args; [|discriminate]. reflexivity. }
